@@ -36,6 +36,14 @@ CHECKS = {
         note=NOTE + " unimock 0.6.8 / mockall 0.12.1 derives as shipped.",
         technique="exhaustive enumeration of a finite configuration lattice on the real macro, decision-table model",
         ref="DESIGN.md §3 C10"),
+    "C16": dict(
+        text="Every pattern word up to length 3 (quick) / 4 (thorough) over a 15-symbol pattern alphabet (plain, mut, ref, raw identifier, wildcard, "
+             "tuple, tuple-struct with 1 binding, with binding+wildcard, struct pattern, reference pattern, binding named like the function, bindings "
+             "named like would-be generated names argN/_argN/f_, destructuring whose binding is the function name) x {generic deps, no_deps, module fn, "
+             "impl-block fn} x fn name {f, r#type} is compiled and run; the generated method's parameter list must satisfy the naming specification and "
+             "the trait call must forward position-coded arguments positionally.",
+        note=NOTE, technique="bounded-exhaustive enumeration of pattern lists on the real macro; specification model + executed trace",
+        ref="DESIGN.md §3 C16"),
     "C17": dict(
         text="State graph whose nodes are option sets and whose edges append one option: every ordered selection of the six fn/mod options "
              "and the five trait options (every path into every node), plus all 4^4 value-form combinations {absent,bare,=true,=false} of the "
